@@ -635,7 +635,9 @@ pub fn gen(seed: u64, thorough: bool) -> Vec<String> {
 
     // (b) size grid: every format, all residues mod 2 and mod 4, empty sizes
     let grid: Vec<u32> =
-        if thorough { (0..=40).collect() } else { vec![0, 1, 2, 3, 4, 5, 6, 7, 8, 9, 15, 16, 17, 40] };
+        if thorough { (0..=40).collect() } else { (0..=17).chain([23, 24, 31, 32, 33, 39, 40]).collect() };
+    let passes = if thorough { 3 } else { 1 };
+    for _pass in 0..passes {
     for (name, f) in &formats {
         let enc = f.encoding_support().is_some();
         let gr: Vec<u32> = if enc { grid.clone() } else { vec![0, 1, 4, 5, 12] };
@@ -653,6 +655,7 @@ pub fn gen(seed: u64, thorough: bool) -> Vec<String> {
                 g.push(path, name, w, h, color, pitch, content, "fast", dither, metric, parallel, k);
             }
         }
+    }
     }
 
     // (c) a writer failing at byte k: boundary offsets for several sizes, every offset for small lengths
@@ -774,7 +777,7 @@ pub fn gen(seed: u64, thorough: bool) -> Vec<String> {
     }
 
     // (g) PRNG over the whole quantifier
-    let n = if thorough { 400_000 } else { 7_000 };
+    let n = if thorough { 1_200_000 } else { 40_000 };
     for _ in 0..n {
         let (name, f) = if g.rng.chance(1, 12) { *g.rng.pick(&formats) } else { *g.rng.pick(&encodable) };
         let mut w = g.rng.below(41) as u32;
